@@ -221,7 +221,7 @@ def per_type(ctx, config, w, counts):
         ctx.ob("variants-permutation", inst, sorted(vc) == sorted(q.variants) and len(vc) == len(set(vc)) == len(d.units),
                "VARIANTS %s is not a permutation of the %d declared units / enum variants %s" % (vc, len(d.units), q.variants), where)
         # 2. order
-        want = [D.upper_camel(u.ident) for u in d.expected_order()]
+        want = [D.upper_camel(u.ident) for u in d.expected_order(lambda u: (q.tables.get("scale", {}).get(D.upper_camel(u.ident)) or (None, None))[1])]
         ctx.ob("variants-order", inst, vc == want,
                "iteration order %s differs from the specified order %s (non-decreasing scale, reference unit first among scale-one units, "
                "declaration order for other ties; name order without reference unit)" % (vc, want), where)
